@@ -46,12 +46,21 @@ def mk_peak(t, dt, area, w):
     return p
 
 
-def run_split(splitter, finder, p, orig_dt, min_area, args):
+_SPLIT_RAW = ps.PeakSplitter._split_peaks.__wrapped__
+
+
+def run_split(splitter, finder, p, orig_dt, min_area, args, public=False):
     is_split = np.zeros(len(p), dtype=bool)
     try:
-        with _Quiet():
+        if public:
             new = splitter._split_peaks(split_finder=finder, peaks=p, is_split=is_split, orig_dt=orig_dt,
                                         min_area=min_area, args_options=args, result_dtype=p.dtype)
+        else:
+            # the numba generator under @growing_result, with a small result buffer of our own
+            buf = np.zeros(3, dtype=p.dtype)
+            saved = [buf[:k].copy() for k in _SPLIT_RAW(finder, p, orig_dt, is_split, min_area, args,
+                                                        _result_buffer=buf)]
+            new = np.concatenate(saved) if saved else np.zeros(0, dtype=p.dtype)
     except ValueError:
         return "err 1"
     return (bool(is_split[0]), [(int(x["time"]), int(x["length"]), int(x["dt"])) for x in new])
@@ -98,6 +107,11 @@ RULE_SP = ("split_points: _split_peaks on one parent of 1..5 (thorough 6) sample
 
 
 def unit_sp(ctx):
+    with _Quiet():
+        _unit_sp(ctx)
+
+
+def _unit_sp(ctx):
     u = Unit(ctx, NAME_SP)
     cases = []
     nmax = 6 if big(ctx) else 5
@@ -114,7 +128,7 @@ def unit_sp(ctx):
     mout = lib.run_model_parallel("C19", lines)
     for (t, dt, area, mina, odt, n, splits), mo in zip(cases, mout):
         p = mk_peak(t, dt, area, [1] * n)
-        out = run_split(_LMS, fixed_finder, p, odt, mina, (np.array(splits, dtype=np.int64),))
+        out = run_split(_LMS, fixed_finder, p, odt, mina, (np.array(splits, dtype=np.int64),), public=(u.n % 40 == 0))
         mexp = parse(mo)
         u.n += 1
         u.tally("err" if out == "err 1" else ("children=%d" % min(len(out[1]), 3)))
@@ -137,11 +151,16 @@ def unit_sp(ctx):
 
 
 def replay_sp(inp):
-    p = mk_peak(inp["t"], inp["dt"], inp["area"], [1] * inp["n"])
-    out = run_split(_LMS, fixed_finder, p, inp["orig_dt"], inp["min_area"], (np.array(inp["splits"], dtype=np.int64),))
+    with _Quiet():
+        out = _replay_out_sp(inp)
     reason = tiling_reason(inp["t"], inp["dt"], inp["n"], inp["orig_dt"], out)
     print("impl:", out, "spec:", reason or "holds")
     return 1 if reason else 0
+
+
+def _replay_out_sp(inp):
+    p = mk_peak(inp["t"], inp["dt"], inp["area"], [1] * inp["n"])
+    return run_split(_LMS, fixed_finder, p, inp["orig_dt"], inp["min_area"], (np.array(inp["splits"], dtype=np.int64),))
 
 
 # ------------------------------------------------------------------------------------------------
@@ -160,6 +179,11 @@ def nb_run(w, threshold, t=100, dt=2, orig_dt=1):
 
 
 def unit_lm(ctx):
+    with _Quiet():
+        _unit_lm(ctx)
+
+
+def _unit_lm(ctx):
     u = Unit(ctx, NAME_LM)
     cases = []
     nmax = 7 if big(ctx) else 6
@@ -172,7 +196,7 @@ def unit_lm(ctx):
     mout = lib.run_model_parallel("C19", lines)
     for (w, mh, mr), mo in zip(cases, mout):
         p = mk_peak(100, 2, sum(w), w)
-        out = run_split(_LMS, _LMS.find_split_points, p, 1, 0, (mh, mr))
+        out = run_split(_LMS, _LMS.find_split_points, p, 1, 0, (mh, mr), public=(u.n % 40 == 0))
         mexp = parse(mo)
         u.n += 1
         u.tally("err" if out == "err 1" else ("children=%d" % min(len(out[1]), 3)))
